@@ -18,12 +18,12 @@ CLAIMED = {
  "C19": ("exploration", "seeded histories of 3-12 public calls on one block (CrossBlock or a combinator block; all strategies, print/tabulate/csv/tuples/dicts/mismatch) with stdout EPIPE, ENOSPC and a user interrupt at a seeded line injected inside calls; block state invariants after every call; every later synthesize_trials must succeed (fresh-block twin as reference) with the same columns and valid sequences", "history machine with state invariants + fresh-twin reference", "6 C19"),
  "C20": ("exploration", "same histories; conversions and CSV files (read back from the simulated file system) must reproduce every declared factor's returned values, never expose internal factors; CSV sub-check skipped for calls hit by an injected I/O fault", "history machine + output-equivalence oracle over SimFS", "6 C20"),
  "C03": ("exploration", "the block first gets a seeded call history in 30% of the runs (IterateILPGen failing without gurobipy or working against the fake Gurobi peer, RandomGen, IterateGen, UniformGen, print); then ideal-uniform ('cycle') sampler peers: one full cycle over all models of the clauses the library handed to pycmsgen / all projections handed to pyunigen; multiset of returned sequences must equal exhausted IterateSATGen's (one blocking clause per trial-sequence assignment), so no sequence has several models or none", "cycle sampler peer + conservation oracle (bounded model enumeration inside the fake)", "6 C03"),
- "C27": ("exploration", "every formula-based strategy over both transports, incl. big-support cases (sampling sets of 110-1515 variables); per peer invocation the file text in SimFS, what the library's parser delivered, the peer's model and what the library claims it answered are recorded together with the intended CNF object; strict DIMACS oracle, parser = text, claimed solution = model, successive files differ by exactly the blocking clause; EIO/ENOSPC injected", "protocol conformance over the recorded file/peer history", "6 C27"),
+ "C27": ("exploration", "every formula-based strategy over both transports, incl. big-support cases (sampling sets of 110-1515 variables); per peer invocation the file text in SimFS, what the library's parser delivered, the peer's model and what the library claims it answered are recorded together with the intended CNF object; strict DIMACS oracle, parser = text, claimed solution = model, successive files differ by exactly the blocking clause; the samples UniGen's reader returns = the samples the peer wrote (the fake executable lists small solution spaces before the samples, as the reader expects); EIO/ENOSPC injected", "protocol conformance over the recorded file/peer history", "6 C27"),
  "C28": ("exploration", "fake Gurobi peer reads each round's OPB text from SimFS and answers by the peer policy; ILP solution set = SAT solution set on generated clause sets with EQ/LT/GT requests (brute-force documented meaning as referee) and on generated designs; each appended OPB constraint excludes exactly the previous solution", "fake ILP peer + two-realisations-agree oracle", "6 C28"),
  "C29": ("exploration", "histories of 1-4 SMGen calls over its process-global state; scattered_map_core.random scripted; virtual clock advanced per traced line; the fake threading.Timer fires clock-driven or pinned to an instant after arming and its handler is delivered in a helper thread (production) or in the main thread; user abort injected at a traced line; every returned sequence checked against the reference semantics", "virtual clock + timer/pre-emption scheduler (sys.settrace line events) + reference-model oracle", "6 C29"),
  "C18": ("exploration", "histories of constructor calls over one pool of shared factor, constraint and operand-BLOCK Python objects (CrossBlock, MultiCrossBlock, Repeat, Merge, Nest; stories about one operand object used two or three times; role-change stories over weighted factors; a constructor interrupted at a seeded line) interleaved with sampling of already built blocks; reference = the same expression built alone from fresh objects; trial counts, exhausted sets (or, beyond the cap, cross-checks with the twin's mismatch checker) and mismatch verdicts must agree", "history over shared mutable objects + fresh-twin reference", "6 C18"),
- "C22": ("exploration", "designs with continuous factors; every continuous draw goes through the scripted PRNG and the script decides which whole-sequence attempt satisfies the ContinuousConstraint; returned values re-derived from the returned rows (same-trial inputs, ContinuousFactorWindow with NaN rules, cumulative sums per sequence); exact attempt count as bounded liveness", "scripted PRNG ('bad luck' fault placement) + recomputation oracle", "6 C22"),
- "C15": ("exploration", "derived-level tables generated as data (total, deliberately overlapping or non-covering on a reachable window, ElseLevel, early start, stride); overlapping => constructor raises, non-covering => every strategy returns [], otherwise every returned sequence carries exactly the level its window selects and '' where the factor does not apply; IterateSATGen under every peer policy, RandomGen under scripted draws, CMSGen", "reference-model oracle (R-DER) over peer/RNG schedules; the design generator carries most of the weight", "6 C15"),
+ "C22": ("exploration", "designs with continuous factors; every continuous draw goes through the scripted PRNG and the script decides which whole-sequence attempt satisfies the ContinuousConstraint; returned values re-derived from the returned rows (same-trial inputs, ContinuousFactorWindow with NaN rules, cumulative sums per sequence), again after later calls on the block; attempt count as bounded liveness", "scripted PRNG ('bad luck' fault placement) + recomputation oracle", "6 C22"),
+ "C15": ("exploration", "derived-level tables generated as data (total, deliberately overlapping or non-covering on a reachable window, ElseLevel, early start, stride); overlapping => constructor raises, non-covering => every strategy returns [], a well-defined design is not refused (ElseLevel objects shared between factors in half the designs), otherwise every returned sequence carries exactly the level its window selects and '' where the factor does not apply; IterateSATGen under every peer policy, RandomGen under scripted draws, CMSGen", "reference-model oracle (R-DER) over peer/RNG schedules; the design generator carries most of the weight", "6 C15"),
  "C16": ("exploration", "block.trials_per_sample() against the documented arithmetic (reference R-T) and the length of every factor's column in every sequence from IterateSATGen, RandomGen, CMSGen, UniGen and SMGen (virtual-clock world)", "reference-model oracle (R-T) over all strategies; the design generator carries most of the weight", "6 C16"),
  "C23": ("exploration", "weight-vs-copies metamorphic twin: each weighted level replaced by separately named copies (derived tables rewritten); both designs exhausted with IterateSATGen in one world; equal sets when the weighted factor is crossed, equal multisets when it is in no crossing; no hidden factor exposed", "metamorphic twin oracle; the design generator carries most of the weight", "6 C23"),
  "C24": ("exploration", "the four documented combinator laws as generator templates, both sides built from fresh objects and exhausted under the run's peer policy: same constructor outcome, same trial count, same solution multiset", "documented-equivalence (metamorphic) oracle", "6 C24"),
